@@ -86,6 +86,7 @@ type c8Conn struct {
 	dead     bool // connection error expected/seen: trace ends
 	streams  map[uint32]*c8Stream
 	obs      []string
+	maxSid   uint32
 	panicked string
 }
 
@@ -273,11 +274,23 @@ func c8OptInt(s string) (int64, bool) {
 
 func c8Exec(t *testing.T, ops []string, o *vu.Out) {
 	var c *c8Conn
-	for _, op := range ops {
+	// every recorded case starts with the line "begin" (tells the Lean driver to forget the previous case)
+	if len(ops) == 0 || strings.TrimSpace(ops[0]) != "begin" {
+		o.Op("begin", "ok")
+	}
+	for i, op := range ops {
 		base := strings.TrimSpace(strings.SplitN(op, "=>", 2)[0])
 		f := strings.Fields(base)
 		if len(f) == 0 {
 			o.Op(op, "bad-op")
+			continue
+		}
+		if base == "begin" {
+			if i == 0 {
+				o.Op("begin", "ok")
+			} else {
+				o.Op(op, "bad-op")
+			}
 			continue
 		}
 		if f[0] == "reset" {
@@ -397,7 +410,8 @@ func c8Exec(t *testing.T, ops []string, o *vu.Out) {
 					o.Stat("branch:wu-stream-illegal")
 				}
 			} else if s == nil {
-				expectDead = true // WINDOW_UPDATE on an idle stream
+				c.obs = append(c.obs, "skip") // never opened: not part of the scripts (idle-stream error)
+				break
 			}
 			c.st.writeWindowUpdate(sid, uint32(inc))
 			c.settle()
@@ -417,10 +431,15 @@ func c8Exec(t *testing.T, ops []string, o *vu.Out) {
 				break
 			}
 			sid := uint32(vu.Atoi64(f[1]))
-			if c.streams[sid] != nil || sid%2 == 0 {
+			if sid%2 == 0 || sid == 0 {
 				valid = false
 				break
 			}
+			if c.streams[sid] != nil || sid < c.maxSid {
+				c.obs = append(c.obs, "skip")
+				break
+			}
+			c.maxSid = sid
 			s := &c8Stream{id: sid, win: c.initWin, open: true}
 			c.streams[sid] = s
 			c.st.writeHeaders(HeadersFrameParam{StreamID: sid, BlockFragment: c.st.encodeHeader(), EndStream: true, EndHeaders: true})
@@ -440,7 +459,7 @@ func c8Exec(t *testing.T, ops []string, o *vu.Out) {
 			sid := uint32(vu.Atoi64(f[1]))
 			s := c.streams[sid]
 			if s == nil {
-				valid = false
+				c.obs = append(c.obs, "skip")
 				break
 			}
 			s.open = false
@@ -453,8 +472,12 @@ func c8Exec(t *testing.T, ops []string, o *vu.Out) {
 			}
 			s := c.streams[uint32(vu.Atoi64(f[1]))]
 			n, k := vu.Atoi64(f[2]), vu.Atoi64(f[3])
-			if s == nil || n < 1 || n > c8MaxWrite || k < 0 {
+			if n < 1 || n > c8MaxWrite || k < 0 {
 				valid = false
+				break
+			}
+			if s == nil {
+				c.obs = append(c.obs, "skip")
 				break
 			}
 			s.mu.Lock()
@@ -500,7 +523,7 @@ func c8Exec(t *testing.T, ops []string, o *vu.Out) {
 			}
 			s := c.streams[uint32(vu.Atoi64(f[1]))]
 			if s == nil {
-				valid = false
+				c.obs = append(c.obs, "skip")
 				break
 			}
 			s.mu.Lock()
